@@ -1448,12 +1448,11 @@ impl<'a, 'b, 'ast> Visit<'ast> for BodyV<'a, 'b> {
             let seglen = ep.path.segments.len();
             if (seglen == 1 || seglen == 2) && ep.qself.is_none() && !self.fc.no_inline {
                 let n = ep.path.segments[seglen - 1].ident.to_string();
+                let mut nested_tail = false;
                 let found = if seglen == 1 {
                     let nk = format!("{}/{}", self.outer_name, n);
-                    match self.fc.tail_calls.get(&nk) {
-                        Some(r) if *r == range_of(e) => self.fc.inline_map.get(&nk).cloned(),
-                        _ => self.fc.inline_map.get(&n).cloned(),
-                    }
+                    nested_tail = matches!(self.fc.tail_calls.get(&nk), Some(r) if *r == range_of(e));
+                    self.fc.inline_map.get(&nk).cloned().or_else(|| self.fc.inline_map.get(&n).cloned())
                 } else {
                     let first = ep.path.segments[0].ident.to_string();
                     self.fc.inline_map.get(&format!("::{n}")).cloned().filter(|i| first == "Self" || i.owner.as_deref() == Some(first.as_str()))
@@ -1465,7 +1464,7 @@ impl<'a, 'b, 'ast> Visit<'ast> for BodyV<'a, 'b> {
                     // the whole body of a closure: `return` / `?` in the helper leave the helper, written
                     // out they leave the closure - the same thing (the closure's result type is the helper's)
                     let in_closure_tail = self.closure_tail == Some(here) && !info.is_async;
-                    let mut leave_ok = match info.leaves { 0 => true, 1 => in_try || in_tail || in_closure_tail, _ => in_tail || in_closure_tail };
+                    let mut leave_ok = nested_tail || match info.leaves { 0 => true, 1 => in_try || in_tail || in_closure_tail, _ => in_tail || in_closure_tail };
                     let mut info = info;
                     if !leave_ok && !info.is_async {
                         if let Some(flat) = info.body_flat.clone() {
@@ -1473,7 +1472,7 @@ impl<'a, 'b, 'ast> Visit<'ast> for BodyV<'a, 'b> {
                             leave_ok = true;
                         }
                     }
-                    let async_ok = !info.is_async || awaited;
+                    let async_ok = nested_tail || !info.is_async || awaited;
                     // a read-only helper inside a unit with the mutable ghost world sees it reborrowed
                     let ro_in_mut = info.world == "ro" && self.world == "mut";
                     if leave_ok && async_ok && (info.world == "none" || info.world == self.world || ro_in_mut) && info.params.len() == e.args.len() && !self.nested_units.contains_key(&format!("{}/{}", self.outer_name, n)) {
@@ -2246,7 +2245,7 @@ impl<'a, 'b, 'ast> Visit<'ast> for BodyV<'a, 'b> {
         let nested_taints: Vec<String> = self.fc.taints[taints_before..].iter().map(|t| t.split_once('|').map(|x| x.1.to_string()).unwrap_or_default()).collect();
         self.fc.no_probe = saved_probe;
         self.fc.no_inline = saved;
-        if !listed && self.fc.tail_calls.contains_key(&key) && !self.fc.no_inline {
+        if !listed && !self.fc.no_inline {
             let simple_params = f.sig.inputs.iter().all(|a| match a {
                 FnArg::Typed(pt) => matches!(&*pt.pat, Pat::Ident(pi) if pi.by_ref.is_none() && pi.subpat.is_none()),
                 _ => false,
@@ -2275,7 +2274,20 @@ impl<'a, 'b, 'ast> Visit<'ast> for BodyV<'a, 'b> {
                         }
                     }
                 }
-                self.fc.inline_map.insert(key.clone(), InlineInfo { params, ret: None, body, world: u.world.clone(), owner: None, taints: nested_taints, leaves: 0, ret_norm: String::new(), is_async: false, recv: 0, body_flat: None, hid: u.id.clone() });
+                // (called in tail position of its outer function: written out as it is; anywhere else: under
+                // the conditions of I1q / flattened by I1r, like a module-level helper)
+                let lk = leave_kind(&f.block).unwrap_or(2);
+                let rn = f.sig.output.to_token_stream().to_string();
+                let ret = match &f.sig.output {
+                    ReturnType::Type(_, t) => Some(apply_edits(self.fc.src, range_of(&**t), &self.fc.edits, &mut errs).0),
+                    ReturnType::Default => None,
+                };
+                let body_flat = if lk > 0 {
+                    let tk = if err_key(&rn).is_some() { 1 } else if rn.replace(' ', "").starts_with("->Option<") { 2 } else { 0 };
+                    let mut el = Elim { src: self.fc.src, edits: &self.fc.edits, try_kind: tk, fuel: 48, bad: std::cell::Cell::new(false) };
+                    el.seq(&[WorkItem::Stmts(&f.block.stmts, true)]).filter(|_| !el.bad.get()).map(|t| t.lines().filter(|l| !l.contains("// @VACUITY")).collect::<Vec<_>>().join("\n"))
+                } else { None };
+                self.fc.inline_map.insert(key.clone(), InlineInfo { params, ret, body, world: u.world.clone(), owner: None, taints: nested_taints, leaves: lk, ret_norm: rn, is_async: f.sig.asyncness.is_some(), recv: 0, body_flat, hid: u.id.clone() });
                 // its own copy keeps the signature only (it is verified where it is written out)
                 let st = range_of(f).0;
                 self.fc.edit_ord(st, st, "#[verifier::external_body]\n", "I1.nested_tail", -31);
